@@ -6,6 +6,7 @@ import (
 	"fmt"
 	"os"
 	"strings"
+	"time"
 )
 
 func main() {
@@ -79,7 +80,8 @@ func (st *state) dispatch(toks []string) (string, string) {
 	case "frag":
 		return fragOp(toks), ""
 	case "watch", "feed", "replicate":
-		return st.feedOp(toks), ""
+		now := time.Now().UnixMilli()
+		return st.feedOp(toks), fmt.Sprintf(" now=%d", now)
 	case "stress":
 		return stressOp(toks), ""
 	case "ptrace":
